@@ -113,7 +113,9 @@ def irft(data, delta_f):
     DATA = numpy.fft.ifftshift(
             numpy.fft.irfft(
                     numpy.fft.ifftshift(data, axes=(-1))),
-            axes=(-1)) * data.shape[-1] * delta_f
+            axes=(-1))
+    # scale by the length of the real-space signal, not of the half spectrum
+    DATA = DATA * DATA.shape[-1] * delta_f
 
     return DATA
 
@@ -147,11 +149,13 @@ def irft2(data, delta_f):
     Returns:
         ndarray: Scaled data in real space
     """
-    N = data.shape[-1]
     DATA = numpy.fft.ifftshift(
             numpy.fft.irfft2(
-                    numpy.fft.ifftshift(data, axes=(-1,-2)), 
-                    axes=(-1,-2)
+                    numpy.fft.ifftshift(data, axes=(-1,-2)),
+                    axes=(-2,-1)
                     ),
-            axes=(-1,-2)) * (N * delta_f)**2
+            axes=(-1,-2))
+    # N is the size of the real-space array, not of the half spectrum
+    N = DATA.shape[-1]
+    DATA = DATA * (N * delta_f)**2
     return DATA
